@@ -8,6 +8,7 @@ import random
 import uuid
 from collections import defaultdict, deque
 from collections.abc import Mapping as AbstractMapping
+from collections.abc import Sequence as AbstractSequence
 from collections.abc import Set as AbstractSet
 from itertools import count, tee, zip_longest
 from typing import (
@@ -70,6 +71,9 @@ def freeze_value(value: Any) -> Any:
     if isinstance(value, AbstractSet) and not isinstance(value, frozenset):
         # Set-like objects that are not sets (dict views, ...)
         return frozenset(freeze_value(element) for element in value)
+    if isinstance(value, AbstractSequence) and not isinstance(value, bytes):
+        # Sequence-like objects that are not lists (UserList, deque, ...)
+        return tuple(freeze_value(element) for element in value)
     return value
 
 
